@@ -169,6 +169,7 @@ func C18(ctx *core.Ctx, r *core.Report) {
 	// "each entry is found under the key its key leaves hold"
 	c17KeyMatchConjunction(ctx, r)
 	c18GrowByAppendOnly(ctx, r)
+	c18HandlerFollowsContainer(ctx, r)
 	c18LookupBeforeCreate(ctx, r)
 }
 
